@@ -251,32 +251,37 @@ def t2(run, T):
                 run.bad("C14.T2", "bullet-kind/%s" % ch, ww, "bullet %r: circle %s" % (ch, "; ".join(probs)))
             else:
                 run.ok("C14.T2", "bullet %r -> %s marker (radius %s, threshold %s)" % (ch, k, fr[2], thr), ww)
-    # marked end = circle.center
-    ex = Expr(prog, mc)
-    ns = [t for _, t in prog.calls(mc) if Program.callee_name(t).endswith("line::Line::new_noswap")]
-    okc = bool(ns) and all(strip(ex.operand(t["args"][1])) == ("param", 2, ("center",)) for t in ns)
-    mls = [t for _, t in prog.calls(mc) if Program.callee_name(t).endswith("fragment::marker_line")]
-    okm = len(mls) == 1 and mentions(ex.operand(mls[0]["args"][1]), lambda z: z[0] in ("field", "param") and "end" in z[2]) and \
-        mentions(ex.operand(mls[0]["args"][4]), lambda z: z[0] == "agg" and z[2] in ("Some",)) and \
-        strip(ex.operand(mls[0]["args"][3]))[0] == "agg" and strip(ex.operand(mls[0]["args"][3]))[2] == "None"
-    # every definition of the line handed to marker_line ends at the circle's centre (no alternative that keeps the
-    # original end point)
-    alts_bad = []
-    if okm:
-        endv = strip(ex.operand(mls[0]["args"][1]))
-        base = strip(endv[1]) if endv[0] == "field" else endv
-        alts = [strip(x) for x in base[1]] if base[0] == "phi" else [base]
-        alts = [strip(a[1]) if a[0] == "field" and tuple(a[2])[-1:] == ("end",) else a for a in alts]
-        for a in alts:
-            if not (a[0] == "call" and a[1].endswith("line::Line::new_noswap") and len(a[2]) == 3 and strip(a[2][1]) == ("param", 2, ("center",))):
-                alts_bad.append(expr_str(a)[:80])
-    if okc and okm and alts_bad:
-        run.bad("C14.T2", "marker-end-alternative", where(mls[0]),
-                "merge_circle: one definition of the marker line is `%s`, whose end is not the circle's centre: the bullet marker is drawn away from the centre of the bullet's cell" % alts_bad[0])
-    elif okc and okm:
-        run.ok("C14.T2", "the marked (end) point of the marker line is the circle's centre", where(ns[0]))
+    # marked end = circle.center, on every path (path-sensitive evaluation; helper constructors inlined and projections
+    # simplified, so `Line::new_noswap(a, c, b)` + `marker_line(l.start, l.end, ..)` and a direct
+    # `marker_line(a, circle.center, ..)` have the same normal form)
+    from ..mirlib import paths as mir_paths
+    from ..exprs import inline_calls, simplify
+    ps = mir_paths(prog, mc)
+    if ps is None:
+        run.bad("C14.T2", "marker-end", where(prog.bodies[mc]), "merge_circle is not a loop-free body with a bounded number of paths; the marked end cannot be established")
     else:
-        run.bad("C14.T2", "marker-end", where(prog.bodies[mc]), "merge_circle: new end is circle.center=%s, marker placed at the end=%s" % (okc, okm))
+        n_some, bad_paths = 0, []
+        for conds, ret in ps:
+            r = strip(simplify(inline_calls(prog, ret, keep=r"^(?!.*(line::Line::new_noswap|line::Line::new|fragment::marker_line)$).*$")))
+            if r[0] == "agg" and r[2] == "None":
+                continue
+            n_some += 1
+            ml = strip(r[3][0][1]) if r[0] == "agg" and r[2] == "Some" and r[3] else ("unknown",)
+            if ml[0] == "agg" and ml[2] == "MarkerLine" and ml[3]:
+                ml = strip(ml[3][0][1])
+            okp = ml[0] == "call" and ml[1].endswith("marker_line::MarkerLine::new") and len(ml[2]) == 5
+            if okp:
+                st_, en_, br_, sm_, em_ = [strip(x) for x in ml[2]]
+                okp = en_ == ("param", 2, ("center",)) and st_[0] == "param" and st_[1] == 1 and st_[2] in (("start",), ("end",)) and \
+                    sm_[0] == "agg" and sm_[2] == "None" and em_[0] == "agg" and em_[2] == "Some"
+            if not okp:
+                bad_paths.append(expr_str(ml)[:140])
+        if bad_paths or not n_some:
+            run.bad("C14.T2", "marker-end", where(prog.bodies[mc]),
+                    "merge_circle: on some path the result is `%s`: the marker line does not run from an end point of the line to the circle's centre with the marker at its end" % (
+                        bad_paths[0] if bad_paths else "no Some(..) result"))
+        else:
+            run.ok("C14.T2", "on all %d merging paths the marker line ends at the circle's centre and carries the marker at that end" % n_some, where(prog.bodies[mc]))
     # Display strings of Marker
     disp = src_fn(run, "fragment/marker_line.rs", "fmt", impl_self="Marker", impl_trait="fmt::Display")
     names = {}
